@@ -149,6 +149,11 @@ var newUClientConnection = func(
 	// [UQUIC] The transport parameters above are what the peer is told; preSetup derives what is
 	// enforced against the peer from s.config. Make the enforced limits cover the advertised ones.
 	s.config = configCoveringAdvertised(s.config, params)
+	s.uAdvertisedStreamData = &uAdvertisedStreamData{
+		bidiLocal:  params.InitialMaxStreamDataBidiLocal,
+		bidiRemote: params.InitialMaxStreamDataBidiRemote,
+		uni:        params.InitialMaxStreamDataUni,
+	}
 	s.preSetup()
 	// [UQUIC] A QUICSpec is authoritative over the Initial CRYPTO framing (via
 	// InitialPacketSpec.FrameBuilder), and uPacketPacker re-frames every Initial
@@ -248,6 +253,22 @@ func cloneClientHelloSpecForDial(chs *tls.ClientHelloSpec) *tls.ClientHelloSpec 
 	return &c
 }
 
+// [UQUIC] uAdvertisedStreamData holds initial_max_stream_data_{bidi_local,bidi_remote,uni} as advertised.
+type uAdvertisedStreamData struct {
+	bidiLocal, bidiRemote, uni protocol.ByteCount
+}
+
+// forStream returns the advertised receive window for stream id (bidi_local: opened by this endpoint).
+func (a *uAdvertisedStreamData) forStream(id protocol.StreamID, pers protocol.Perspective) protocol.ByteCount {
+	if id.Type() == protocol.StreamTypeUni {
+		return a.uni
+	}
+	if id.InitiatedBy() == pers {
+		return a.bidiLocal
+	}
+	return a.bidiRemote
+}
+
 // [UQUIC] configCoveringAdvertised returns a copy of conf in which every limit the connection
 // enforces against the peer is at least as permissive as the transport parameter advertised for it.
 // A QUICSpec is authoritative over the transport parameters on the wire, while the flow controllers,
@@ -259,7 +280,9 @@ func cloneClientHelloSpecForDial(chs *tls.ClientHelloSpec) *tls.ClientHelloSpec 
 // timed out early. For parameters derived from the Config itself this is the identity.
 func configCoveringAdvertised(conf *Config, p *wire.TransportParameters) *Config {
 	c := conf.Clone()
-	c.InitialConnectionReceiveWindow = max(c.InitialConnectionReceiveWindow, uint64(p.InitialMaxData))
+	// The connection window is enforced exactly as advertised, for the same reason as the stream windows
+	// (see uAdvertisedStreamData): a larger local window would never be refilled in time.
+	c.InitialConnectionReceiveWindow = uint64(p.InitialMaxData)
 	c.MaxConnectionReceiveWindow = max(c.MaxConnectionReceiveWindow, c.InitialConnectionReceiveWindow)
 	// there is one receive window for all stream types
 	c.InitialStreamReceiveWindow = max(c.InitialStreamReceiveWindow,
